@@ -83,85 +83,89 @@ func TestC15(t *testing.T) {
 	w := newWorld(t, 100, -1)
 
 	emit := func(kind string, spec nodeSpec, nAllocs int, forget int, doDrift bool, oversize bool) {
-		node := w.addNode(spec)
-		defer w.mgr.RemoveNode(w.ctx, node) //nolint
-		var live []*workload
-		id := 0
-		for i := 0; i < nAllocs; i++ {
-			opts, _ := g.allocOpts(false)
-			ws, _, err := w.mgr.Alloc(w.ctx, node, 1+g.intn(2), resourcetypes.Resources{pluginName: opts})
-			if err != nil {
-				continue
-			}
-			for _, res := range ws {
-				id++
-				if g.chance(0.5) {
-					res = roundTrip(res)
+		guarded(r, func() {
+			node := w.addNode(spec)
+			defer w.mgr.RemoveNode(w.ctx, node) //nolint
+			var live []*workload
+			id := 0
+			for i := 0; i < nAllocs; i++ {
+				opts, _ := g.allocOpts(false)
+				ws, _, err := w.mgr.Alloc(w.ctx, node, 1+g.intn(2), resourcetypes.Resources{pluginName: opts})
+				if err != nil {
+					continue
 				}
-				live = append(live, &workload{id: fmt.Sprintf("w%d", id), res: res})
+				for _, res := range ws {
+					id++
+					if g.chance(0.5) {
+						res = roundTrip(res)
+					}
+					live = append(live, &workload{id: fmt.Sprintf("w%d", id), res: res})
+				}
 			}
-		}
-		// the store may have lost / gained records relative to the plugin's usage
-		for i := 0; i < forget && len(live) > 0; i++ {
-			k := g.intn(len(live))
-			live = append(live[:k:k], live[k+1:]...)
-		}
-		fits := true
-		if oversize && len(live) > 0 { // a recorded workload that cannot fit: the repair must refuse to store
-			k := g.intn(len(live))
-			wr := parseWR(live[k].res[pluginName])
-			raw := resourcetypes.RawParams{"cpu_request": wr.CPURequest, "cpu_limit": wr.CPULimit, "memory_request": wr.MemoryRequest,
-				"memory_limit": wr.MemoryLimit, "cpu_map": map[string]int{"0": 100000}, "numa_memory": map[string]int64(wr.NUMAMemory), "numa_node": wr.NUMANode}
-			live[k] = &workload{id: live[k].id, res: resourcetypes.Resources{pluginName: raw}}
-			fits = false
-		}
-		capacity, usage, _ := w.read(node, nil)
-		driftKind := "none"
-		if doDrift {
-			du, k := g.drift(capacity, usage)
-			if _, err := w.pl.SetNodeResourceInfo(w.ctx, node, nrToRaw(capacity), nrToRaw(du)); err == nil {
-				driftKind = k
-			} else {
-				driftKind = "rejected"
+			// the store may have lost / gained records relative to the plugin's usage
+			for i := 0; i < forget && len(live) > 0; i++ {
+				k := g.intn(len(live))
+				live = append(live[:k:k], live[k+1:]...)
 			}
-		}
-		_, stored, _ := w.read(node, nil)
-		info := fmt.Sprintf("(mkNI %s %s)", coqNR(capacity), coqNR(stored))
-		wsTerms := []string{}
-		wsDesc := []any{}
-		for _, l := range live {
-			wr := parseWR(l.res[pluginName])
-			wsTerms = append(wsTerms, coqWR(wr))
-			wsDesc = append(wsDesc, wr)
-		}
-		// repair
-		_, usage1R, lines1, err := w.mgr.GetNodeResourceInfo(w.ctx, node, w.coreWorkloads(live), true)
-		if err != nil {
-			t.Fatalf("fix: %v", err)
-		}
-		usage1 := &ctypes.NodeResource{}
-		if err := usage1.Parse(usage1R[pluginName]); err != nil {
-			panic(err)
-		}
-		d1 := classify(lines1)
-		// check again
-		_, usage2, d2 := w.read(node, live)
-		failed := d1.other > 0
-		if d1.other > 1 || d2.other > 0 {
-			wsTerms = append(wsTerms, "(mkWR (fb 0%Z) (fb 0%Z) (-12345)%Z 0%Z [] [] \"\"%string)") // unknown diff lines: force a mismatch
-		}
-		term := fmt.Sprintf("(mkFixCase %s %s %s %s %s %s %s %s)", info, vh.List(wsTerms), vh.Bool(fits),
-			coqNR(usage1), d1.coq(), vh.Bool(failed), coqNR(usage2), d2.coq())
-		desc := map[string]any{"node": spec, "drift": driftKind, "capacity": capacity, "stored_usage": stored, "workloads": wsDesc,
-			"fix": map[string]any{"usage": usage1, "diffs": lines1}, "recheck": map[string]any{"usage": usage2, "diffs": d2}}
-		r.Count("kind=" + kind)
-		r.Count("node=" + spec.describe)
-		r.Count(fmt.Sprintf("diffs_before=%v", len(lines1) > 0))
-		r.Count(fmt.Sprintf("fits=%v", fits))
-		if failed {
-			r.Count("store_refused")
-		}
-		r.Add(term, desc, map[string]any{"kind": kind, "fits": fits, "numa": len(spec.numa) > 0}, len(lines1) > 0)
+			fits := true
+			if oversize && len(live) > 0 { // a recorded workload that cannot fit: the repair must refuse to store
+				k := g.intn(len(live))
+				wr := parseWR(live[k].res[pluginName])
+				raw := resourcetypes.RawParams{"cpu_request": wr.CPURequest, "cpu_limit": wr.CPULimit, "memory_request": wr.MemoryRequest,
+					"memory_limit": wr.MemoryLimit, "cpu_map": map[string]int{"0": 100000}, "numa_memory": map[string]int64(wr.NUMAMemory), "numa_node": wr.NUMANode}
+				live[k] = &workload{id: live[k].id, res: resourcetypes.Resources{pluginName: raw}}
+				fits = false
+			}
+			capacity, usage, _ := w.read(node, nil)
+			driftKind := "none"
+			if doDrift {
+				du, k := g.drift(capacity, usage)
+				if _, err := w.pl.SetNodeResourceInfo(w.ctx, node, nrToRaw(capacity), nrToRaw(du)); err == nil {
+					driftKind = k
+				} else {
+					checkInfra(err)
+					driftKind = "rejected"
+				}
+			}
+			_, stored, _ := w.read(node, nil)
+			info := fmt.Sprintf("(mkNI %s %s)", coqNR(capacity), coqNR(stored))
+			wsTerms := []string{}
+			wsDesc := []any{}
+			for _, l := range live {
+				wr := parseWR(l.res[pluginName])
+				wsTerms = append(wsTerms, coqWR(wr))
+				wsDesc = append(wsDesc, wr)
+			}
+			// repair
+			_, usage1R, lines1, err := w.mgr.GetNodeResourceInfo(w.ctx, node, w.coreWorkloads(live), true)
+			if err != nil {
+				checkInfra(err)
+				t.Fatalf("fix: %v", err)
+			}
+			usage1 := &ctypes.NodeResource{}
+			if err := usage1.Parse(usage1R[pluginName]); err != nil {
+				panic(err)
+			}
+			d1 := classify(lines1)
+			// check again
+			_, usage2, d2 := w.read(node, live)
+			failed := d1.other > 0
+			if d1.other > 1 || d2.other > 0 {
+				wsTerms = append(wsTerms, "(mkWR (fb 0%Z) (fb 0%Z) (-12345)%Z 0%Z [] [] \"\"%string)") // unknown diff lines: force a mismatch
+			}
+			term := fmt.Sprintf("(mkFixCase %s %s %s %s %s %s %s %s)", info, vh.List(wsTerms), vh.Bool(fits),
+				coqNR(usage1), d1.coq(), vh.Bool(failed), coqNR(usage2), d2.coq())
+			desc := map[string]any{"node": spec, "drift": driftKind, "capacity": capacity, "stored_usage": stored, "workloads": wsDesc,
+				"fix": map[string]any{"usage": usage1, "diffs": lines1}, "recheck": map[string]any{"usage": usage2, "diffs": d2}}
+			r.Count("kind=" + kind)
+			r.Count("node=" + spec.describe)
+			r.Count(fmt.Sprintf("diffs_before=%v", len(lines1) > 0))
+			r.Count(fmt.Sprintf("fits=%v", fits))
+			if failed {
+				r.Count("store_refused")
+			}
+			r.Add(term, desc, map[string]any{"kind": kind, "fits": fits, "numa": len(spec.numa) > 0}, len(lines1) > 0)
+		})
 	}
 
 	numa2 := nodeSpec{cores: 4, share: 100, memory: 4000, numa: [][]string{{"0", "2"}, {"1", "3"}}, numaMem: []int64{2000, 2000}, describe: "numa2"}
@@ -174,7 +178,7 @@ func TestC15(t *testing.T) {
 	emit("corpus", plain, 0, 0, true, false)
 	emit("corpus", numa2, 3, 0, true, true)
 
-	n := r.N(180, 5000)
+	n := r.N(180, 2500)
 	for i := 0; i < n; i++ {
 		spec := g.nodeSpec(100, g.chance(0.5))
 		forget := 0
